@@ -104,7 +104,8 @@ Want(r) ==
       [] OTHER -> << >>
 
 \* signature of the failing call site and input class (used to match known findings)
-Sig(r) == r.api \o "/" \o r.rep \o "/" \o r.src
+\* (r.dt: representation of the vertex array given to the implementation: f64, i64, i32, f32)
+Sig(r) == r.api \o "/" \o r.rep \o "/" \o r.src \o (IF r.dt = "f64" THEN "" ELSE "/" \o r.dt)
 
 Failed(r) == SelectSeq(Clauses(r), LAMBDA c : ~ c.ok)
 
